@@ -266,6 +266,42 @@ def run(repo: Repo, chk: Check):
                 work.append((d_.value.id, d_.node))
     if not script_names:
         raise AnalysisError("eval_constexpr: the variable holding the evaluation script was not identified")
+    # the functions of a library module enter the script only inside 'class <module>:' (indented): at the top level a library function
+    # would replace a function of the same name of the main program (or of another library)
+    from .shared import expr_guards
+    n_lib = 0
+    for lp in list(ast.walk(ev)):
+        gens = []
+        if isinstance(lp, ast.For) and isinstance(lp.target, ast.Tuple) and len(lp.target.elts) == 2 and "constexpr_functions" in norm(lp.iter):
+            gens.append((lp.target, lp))
+        if isinstance(lp, (ast.GeneratorExp, ast.ListComp)):
+            for g_ in lp.generators:
+                if isinstance(g_.target, ast.Tuple) and len(g_.target.elts) == 2 and "constexpr_functions" in norm(g_.iter):
+                    gens.append((g_.target, lp))
+        for tgt, scope_node in gens:
+            if not all(isinstance(x, ast.Name) for x in tgt.elts):
+                continue
+            svar, fvar = tgt.elts[0].id, tgt.elts[1].id
+            n_lib += 1
+            # every place where the text of the functions is put into the script as it is (not line by line behind an indentation)
+            for use in ast.walk(scope_node):
+                if not (isinstance(use, ast.Name) and use.id == fvar and isinstance(use.ctx, ast.Load)):
+                    continue
+                par = getattr(use, "parent", None)
+                if isinstance(par, ast.Attribute) and par.attr in ("splitlines", "split"):
+                    continue          # taken apart into lines (indented one by one)
+                if isinstance(par, ast.Call) and norm(par.func) in ("re.findall", "re.finditer", "re.search", "len", "textwrap.indent"):
+                    continue          # looked at / indented as a whole
+                ids_ = [n_.id for n_ in ecfg.nodes_of(use)]
+                gs = [(t_, p_) for i_ in ids_[:1] for t_, p_ in ecfg.guards(i_) if isinstance(t_, ast.expr)] + list(expr_guards(use, ev))
+                main_only = any((norm(t_) in (f"{svar} == ''", f"'' == {svar}", f"not {svar}") and p_) or (norm(t_) in (f"{svar} != ''", f"'' != {svar}", svar) and not p_)
+                                for t_, p_ in gs)
+                chk.judge("R12.c", "utils:eval_constexpr:functions of a library module enter the script only inside 'class <module>:'", main_only,
+                          f"the source of the constexpr functions of every scope ({fvar}) is put into the script at the top level, also for a library module ({svar} != ''): a "
+                          f"library's function replaces a function of the same name of the main program, whose calls then return the library's value",
+                          None, f"{u.path}:{use.lineno} in eval_constexpr")
+    if n_lib == 0:
+        raise AnalysisError("eval_constexpr: the loop over data.constexpr_functions that assembles the function sources was not found")
     tmpl = None
     for st in ast.walk(ev):
         if isinstance(st, ast.Assign) and isinstance(st.value, ast.JoinedStr) and "import" in norm(st.value) and any(norm(t) in script_names for t in st.targets):
